@@ -26,6 +26,8 @@ var registry = map[string]entry{
 	"C17": {"model_checking", checks.C17},
 	"C14": {"model_checking", checks.C14},
 	"C06": {"model_checking", checks.C06},
+	"C07": {"translation_validation", checks.C07},
+	"C13": {"model_checking", checks.C13},
 	"C08": {"model_checking", checks.C08},
 	"C10": {"model_checking", checks.C10},
 	"C11": {"model_checking", checks.C11},
